@@ -1,0 +1,151 @@
+//! Verification shims. Compiled only with `--cfg fclones_verif_shuttle`, and only through the
+//! verification framework's shadow manifest, which adds the `shuttle` dependency; the shipped build
+//! never sees this module.
+//!
+//! It re-expresses exactly the concurrency vocabulary of the `rehash` pipeline on top of
+//! shuttle's scheduler-controlled primitives, so that every lock, wait, notify, channel operation,
+//! thread spawn and join of that pipeline becomes a scheduling point decided by a seeded scheduler.
+
+/// `std::sync::{Arc, Condvar, Mutex}` as used by `semaphore.rs`.
+pub mod sync {
+    pub use shuttle::sync::{Condvar, Mutex};
+    pub use std::sync::Arc;
+}
+
+/// `std::sync::mpsc::{channel, Receiver, Sender}` as used by `group.rs`.
+pub mod mpsc {
+    pub use shuttle::sync::mpsc::{channel, Receiver, Sender};
+}
+
+/// `lazy_static!` as used by `rlimit.rs` (re-initialised for every simulated execution).
+pub use shuttle::lazy_static;
+
+/// `crossbeam_utils::thread::scope` as used by `group.rs`: plain spawns whose handles are all
+/// joined before `scope` returns (shuttle's own `thread::scope` cannot be used here, because the
+/// scope owner blocks on a channel inside the scope body).
+pub mod thread {
+    use std::any::Any;
+    use std::cell::RefCell;
+    use std::marker::PhantomData;
+
+    pub struct Scope<'env> {
+        handles: RefCell<Vec<shuttle::thread::JoinHandle<()>>>,
+        _marker: PhantomData<&'env mut &'env ()>,
+    }
+
+    impl<'env> Scope<'env> {
+        fn new() -> Scope<'env> {
+            Scope {
+                handles: RefCell::new(Vec::new()),
+                _marker: PhantomData,
+            }
+        }
+
+        fn join_all(&self) {
+            let handles: Vec<_> = self.handles.borrow_mut().drain(..).collect();
+            for h in handles {
+                h.join().unwrap();
+            }
+        }
+
+        pub fn spawn<F, T>(&self, f: F)
+        where
+            F: FnOnce(&Scope<'env>) -> T + Send + 'env,
+            T: Send + 'env,
+        {
+            let task: Box<dyn FnOnce() + Send + 'env> = Box::new(move || {
+                let inner = Scope::new();
+                let _ = f(&inner);
+                inner.join_all();
+            });
+            // The task cannot outlive 'env: `scope` joins every handle before it returns.
+            let task: Box<dyn FnOnce() + Send + 'static> = unsafe { std::mem::transmute(task) };
+            self.handles.borrow_mut().push(shuttle::thread::spawn(task));
+        }
+    }
+
+    pub fn scope<'env, F, R>(f: F) -> Result<R, Box<dyn Any + Send + 'static>>
+    where
+        F: FnOnce(&Scope<'env>) -> R,
+    {
+        let scope = Scope::new();
+        let result = f(&scope);
+        scope.join_all();
+        Ok(result)
+    }
+}
+
+/// `rayon::{ThreadPool, ThreadPoolBuilder}` as used by `device.rs`: N tasks pulling jobs in FIFO
+/// order from a channel; dropping the pool closes the channel and joins the workers.
+pub mod pool {
+    use shuttle::sync::mpsc::{channel, Sender};
+    use shuttle::sync::{Arc, Mutex};
+
+    type Job = Box<dyn FnOnce() + Send + 'static>;
+
+    pub struct ThreadPool {
+        sender: Option<Sender<Job>>,
+        workers: Vec<shuttle::thread::JoinHandle<()>>,
+        size: usize,
+    }
+
+    #[derive(Default)]
+    pub struct ThreadPoolBuilder {
+        num_threads: usize,
+    }
+
+    #[derive(Debug)]
+    pub struct BuildError;
+
+    impl ThreadPoolBuilder {
+        pub fn num_threads(mut self, n: usize) -> Self {
+            self.num_threads = n;
+            self
+        }
+
+        pub fn build(self) -> Result<ThreadPool, BuildError> {
+            // 0 means "automatic" for rayon; the simulation uses a small fixed number then
+            let size = if self.num_threads == 0 { 2 } else { self.num_threads };
+            let (tx, rx) = channel::<Job>();
+            let rx = Arc::new(Mutex::new(rx));
+            let mut workers = Vec::new();
+            for _ in 0..size {
+                let rx = rx.clone();
+                workers.push(shuttle::thread::spawn(move || loop {
+                    let job = rx.lock().unwrap().recv();
+                    match job {
+                        Ok(job) => job(),
+                        Err(_) => break,
+                    }
+                }));
+            }
+            Ok(ThreadPool {
+                sender: Some(tx),
+                workers,
+                size,
+            })
+        }
+    }
+
+    impl ThreadPool {
+        pub fn current_num_threads(&self) -> usize {
+            self.size
+        }
+
+        pub fn spawn_fifo<F>(&self, f: F)
+        where
+            F: FnOnce() + Send + 'static,
+        {
+            self.sender.as_ref().unwrap().send(Box::new(f)).unwrap();
+        }
+    }
+
+    impl Drop for ThreadPool {
+        fn drop(&mut self) {
+            drop(self.sender.take());
+            for w in self.workers.drain(..) {
+                let _ = w.join();
+            }
+        }
+    }
+}
